@@ -598,6 +598,7 @@ type c03Case struct {
 	Opts      xOpts    `json:"opts"`
 	Val       jval     `json:"value"`
 	Root      *string  `json:"rootTag,omitempty"` // map: explicit root tag
+	Extra     []string `json:"extraTags,omitempty"` // map: further tags after the root tag (two or more tags: the Go code falls back to the default root tag)
 	Tags      []string `json:"tags,omitempty"`    // any: 0, 1 or 2 tags
 	Prefix    string   `json:"prefix"`
 	Indent    string   `json:"indent"`
@@ -628,7 +629,7 @@ func c03Encode(c c03Case, v interface{}, indent bool) Outcome {
 			m := mxj.Map(v.(map[string]interface{}))
 			var rt []string
 			if c.Root != nil {
-				rt = []string{*c.Root}
+				rt = append([]string{*c.Root}, c.Extra...)
 			}
 			if indent {
 				b, err = m.XmlIndent(c.Prefix, c.Indent, rt...)
@@ -657,6 +658,16 @@ func c03OutText(o Outcome) string {
 	return strconv.Quote(string(b))
 }
 
+// effRoot: the root tag in effect - the single tag given; with two or more tags the default root tag
+// (`len(rootTag) == 1` fails and the single-key rule is skipped as well).
+func (c c03Case) effRoot() *string {
+	if c.Root != nil && len(c.Extra) > 0 {
+		d := mxj.DefaultRootTag
+		return &d
+	}
+	return c.Root
+}
+
 func coqOptStr(p *string) string {
 	if p == nil {
 		return "None"
@@ -668,9 +679,9 @@ func coqOptStr(p *string) string {
 func c03CallTerm(c c03Case, vterm string, indent bool) string {
 	if c.Kind == "map" {
 		if indent {
-			return "(CXmlIndent " + vterm + " " + coqOptStr(c.Root) + ")"
+			return "(CXmlIndent " + vterm + " " + coqOptStr(c.effRoot()) + ")"
 		}
-		return "(CXml " + vterm + " " + coqOptStr(c.Root) + ")"
+		return "(CXml " + vterm + " " + coqOptStr(c.effRoot()) + ")"
 	}
 	rt, et := c.rtet()
 	if indent {
@@ -876,6 +887,14 @@ func runC03(cfg runCfg) error {
 			t := r.pick(c03RootTags)
 			c.Root = &t
 			shape += "+explicit-tag"
+			if r.chance(0.2) {
+				// two (or three) tags: not "the explicit root tag" any more
+				c.Extra = []string{r.pick(c03RootTags)}
+				if r.chance(0.3) {
+					c.Extra = append(c.Extra, r.pick(c03ElemTags))
+				}
+				shape += "+extra-tags"
+			}
 		}
 		switch malformed {
 		case "attr-nonscalar":
@@ -952,7 +971,7 @@ func c03One(run *Run, c c03Case, v interface{}) {
 	c1.Call = "bytes"
 	var t1 string
 	if c.Kind == "map" {
-		t1 = fmt.Sprintf("X1 (XEnc %s %s %s %s %s)", o.coq(), vterm, coqOptStr(c.Root), coqBool(accept), xoutBytes(compact))
+		t1 = fmt.Sprintf("X1 (XEnc %s %s %s %s %s)", o.coq(), vterm, coqOptStr(c.effRoot()), coqBool(accept), xoutBytes(compact))
 	} else {
 		rt, et := c.rtet()
 		t1 = fmt.Sprintf("X1 (XAny %s %s %s %s %s %s)", o.coq(), vterm, coqStr(rt), coqStr(et), coqBool(accept), xoutBytes(compact))
@@ -1002,7 +1021,7 @@ func c03One(run *Run, c c03Case, v interface{}) {
 	var want map[string]interface{}
 	l1, l2, k1, k2 := "Map.Xml", "Map.XmlIndent", "img-differs:compact", "img-differs:indent"
 	if c.Kind == "map" {
-		want = imgMapGo(v.(map[string]interface{}), c.Root)
+		want = imgMapGo(v.(map[string]interface{}), c.effRoot())
 	} else {
 		rt, et := c.rtet()
 		want = imgAnyGo(v, rt, et)
@@ -1100,7 +1119,7 @@ func replayC03(raw []byte) error {
 		if !ok {
 			return fmt.Errorf("replay: kind map needs a map value")
 		}
-		want = imgMapGo(m, c.Root)
+		want = imgMapGo(m, c.effRoot())
 	} else {
 		rt, et := c.rtet()
 		want = imgAnyGo(v, rt, et)
